@@ -730,6 +730,37 @@ func (m *Machine) stringBinop(op token.Token, x, y Value) Value {
 			return normBStr(&BStr{B: append(append([]Value(nil), a.B...), b.B...)})
 		}
 	}
+	if op == token.LSS || op == token.LEQ || op == token.GTR || op == token.GEQ {
+		a, oka := toBStr(x)
+		b, okb := toBStr(y)
+		if oka && okb {
+			// lexicographic byte order: lt(i) = a[i] < b[i] or (a[i] == b[i] and lt(i+1)); at the end of
+			// the shorter string the shorter one is smaller
+			c := m.Ctx
+			if op == token.GTR || op == token.GEQ {
+				a, b = b, a // a > b  <=>  b < a ;  a >= b  <=>  b <= a
+			}
+			orEqual := op == token.LEQ || op == token.GEQ
+			n := len(a.B)
+			if len(b.B) < n {
+				n = len(b.B)
+			}
+			var tail *smt.Term
+			switch {
+			case len(a.B) < len(b.B):
+				tail = c.True
+			case len(a.B) > len(b.B):
+				tail = c.False
+			default:
+				tail = c.Bool(orEqual)
+			}
+			for i := n - 1; i >= 0; i-- {
+				ai, bi := m.intTerm(a.B[i]), m.intTerm(b.B[i])
+				tail = c.Or(c.Lt(ai, bi), c.And(c.Eq(ai, bi), tail))
+			}
+			return unTerm(m.simp(tail))
+		}
+	}
 	unsupported("string binop %s on symbolic operands", op)
 	return nil
 }
